@@ -913,6 +913,10 @@ coap_oscore_decrypt_pdu(coap_session_t *session,
   coap_bin_const_t rcvd_piv = { 0, NULL };
 #if COAP_CLIENT_SUPPORT
   coap_pdu_t *sent_pdu = NULL;
+  /* Appendix B.2 state to go back to if the response does not verify */
+  int b_2_restore = 0;
+  COAP_OSCORE_B_2_STEP b_2_prev_step = COAP_OSCORE_B_2_NONE;
+  coap_bin_const_t *b_2_prev_id_context = NULL;
 #endif /* COAP_CLIENT_SUPPORT */
 
   opt = coap_check_option(pdu, COAP_OPTION_OSCORE, &opt_iter);
@@ -1154,6 +1158,12 @@ coap_oscore_decrypt_pdu(coap_session_t *session,
       if (session->b_2_step != COAP_OSCORE_B_2_NONE) {
         const uint8_t *ptr = cose->kid_context.s;
 
+        /*
+         * The kid context of the OSCORE option is not authenticated yet:
+         * what it changes is undone if the response does not verify.
+         */
+        b_2_restore = 1;
+        b_2_prev_step = session->b_2_step;
         if (ptr) {
           /* Need to CBOR unwrap kid_context */
           coap_bin_const_t kid_context;
@@ -1181,6 +1191,12 @@ coap_oscore_decrypt_pdu(coap_session_t *session,
           memcpy(&kc->s[cose->kid_context.length],
                  osc_ctx->id_context->s,
                  osc_ctx->id_context->length);
+          b_2_prev_id_context = coap_new_bin_const(osc_ctx->id_context->s,
+                                                   osc_ctx->id_context->length);
+          if (b_2_prev_id_context == NULL) {
+            coap_delete_binary(kc);
+            goto error;
+          }
 
           session->b_2_step = COAP_OSCORE_B_2_STEP_3;
           coap_log_oscore("Appendix B.2 client step 3 (R2 || ID1)\n");
@@ -1444,6 +1460,13 @@ coap_oscore_decrypt_pdu(coap_session_t *session,
   }
 
   assert((size_t)pltxt_size < pdu->alloc_size + pdu->max_hdr_size);
+
+#if COAP_CLIENT_SUPPORT
+  /* The response is verified: the Appendix B.2 update stands */
+  b_2_restore = 0;
+  coap_delete_bin_const(b_2_prev_id_context);
+  b_2_prev_id_context = NULL;
+#endif /* COAP_CLIENT_SUPPORT */
 
   if (coap_request) {
     /*
@@ -1764,6 +1787,17 @@ coap_oscore_decrypt_pdu(coap_session_t *session,
 error:
   coap_send_ack_lkd(session, pdu);
 error_no_ack:
+#if COAP_CLIENT_SUPPORT
+  if (b_2_restore) {
+    /*
+     * Appendix B.2: a response that did not verify must not leave the
+     * ID Context (and the keys derived from it) of its kid context behind.
+     */
+    session->b_2_step = b_2_prev_step;
+    if (b_2_prev_id_context)
+      oscore_update_ctx(osc_ctx, b_2_prev_id_context);
+  }
+#endif /* COAP_CLIENT_SUPPORT */
   /*
    * A response that cannot be verified is dropped (RFC8613 8.4); the
    * association of its token stays for the genuine response.
